@@ -46,6 +46,8 @@ func deepCopy(v any) any {
 		return append([]string{}, s...)
 	case []T2:
 		return append([]T2{}, s...)
+	case []float64:
+		return append([]float64{}, s...)
 	case [][]int:
 		out := make([][]int, len(s))
 		for i := range s {
@@ -102,6 +104,17 @@ func sameContents(a, b any) bool {
 			}
 		}
 		return true
+	case []float64:
+		y := b.([]float64)
+		if len(x) != len(y) {
+			return false
+		}
+		for i := range x {
+			if x[i] != y[i] {
+				return false
+			}
+		}
+		return true
 	}
 	return false
 }
@@ -118,6 +131,8 @@ func typeOf(v any) string {
 		return "[]T2"
 	case [][]int:
 		return "[][]int"
+	case []float64:
+		return "[]float64"
 	}
 	return "?"
 }
@@ -232,6 +247,16 @@ func famT2() family[T2] {
 		return frt.NewTuple2(n, s[i+1:]), err == nil
 	}}
 }
+var fltMaps = map[string]func(float64) float64{"flt.id": func(x float64) float64 { return x }, "flt.half": func(x float64) float64 { return x / 2 }}
+var fltPreds = map[string]func(float64) bool{"flt.pos": func(x float64) bool { return x > 0 }, "any.true": func(float64) bool { return true }, "any.false": func(float64) bool { return false }}
+
+func famFlt() family[float64] {
+	return family[float64]{fltMaps, fltPreds, func(x float64) int { return int(x) }, func(e *engC12, s string) (float64, bool) {
+		f, err := strconv.ParseFloat(s, 64)
+		return f, err == nil
+	}}
+}
+
 func famNest() family[[]int] {
 	return family[[]int]{nestMaps, nestPreds, func(s []int) int { return len(s) }, func(e *engC12, s string) ([]int, bool) {
 		p := e.ref(s)
@@ -449,6 +474,8 @@ func (e *engC12) apply(op Op) (executed bool) {
 			res, executed = slice.Sort(s), true
 		case []string:
 			res, executed = slice.Sort(s), true
+		case []float64:
+			res, executed = slice.Sort(s), true
 		default:
 			return false
 		}
@@ -463,6 +490,8 @@ func (e *engC12) apply(op Op) (executed bool) {
 		case []string:
 			res, executed = slice.Distinct(s), true
 		case []T2:
+			res, executed = slice.Distinct(s), true
+		case []float64:
 			res, executed = slice.Distinct(s), true
 		default:
 			return false
@@ -563,6 +592,8 @@ func (e *engC12) apply(op Op) (executed bool) {
 			res, executed = applySame(e, rest, s, famT2())
 		case [][]int:
 			res, executed = applySame(e, rest, s, famNest())
+		case []float64:
+			res, executed = applySame(e, rest, s, famFlt())
 		}
 	}
 	if executed && res != nil && op.Out > 0 {
@@ -622,6 +653,14 @@ func mkInit(in Init) (any, bool) {
 		for i, x := range el {
 			s[i] = frt.NewTuple2(x, fmt.Sprint("s", x))
 		}
+		return s, true
+	case "[]float64":
+		var el []float64
+		if json.Unmarshal([]byte(in.Elems), &el) != nil {
+			return nil, false
+		}
+		s := make([]float64, len(el), mk(len(el)))
+		copy(s, el)
 		return s, true
 	case "[][]int":
 		var el [][]int
@@ -703,7 +742,7 @@ func genHistoryC12(r *common.Rng, seed int64, run int) *History {
 	h := &History{V: 1, Property: "C12", Seed: seed, Run: run}
 	var vals []genVal
 	nextID := 1
-	types := []string{"[]int", "[]int", "[]string", "[]T2", "[][]int"}
+	types := []string{"[]int", "[]int", "[]string", "[]T2", "[][]int", "[]float64"}
 	for i, n := 0, r.Range(1, 4); i < n; i++ {
 		t := types[r.Intn(len(types))]
 		ln := r.Intn(7)
@@ -720,6 +759,13 @@ func genHistoryC12(r *common.Rng, seed int64, run int) *History {
 			el := make([]string, ln)
 			for j := range el {
 				el[j] = r.Pick("a", "b", "", "ab", "z", "ba")
+			}
+			b, _ := json.Marshal(el)
+			elems = string(b)
+		case "[]float64":
+			el := make([]float64, ln)
+			for j := range el {
+				el[j] = float64(r.Intn(20)) / 2
 			}
 			b, _ := json.Marshal(el)
 			elems = string(b)
@@ -762,6 +808,8 @@ func genHistoryC12(r *common.Rng, seed int64, run int) *History {
 			return r.Pick("p", "q", "", "pq")
 		case "[]T2":
 			return fmt.Sprintf("%d:%s", r.Intn(10)+10, r.Pick("p", "q"))
+		case "[]float64":
+			return fmt.Sprint(float64(r.Intn(20))/2 + 20)
 		case "[][]int":
 			if v, ok := pick("[]int"); ok {
 				return fmt.Sprint("#", v.id)
@@ -787,6 +835,10 @@ func genHistoryC12(r *common.Rng, seed int64, run int) *History {
 			return keysOf(nestMaps)[r.Intn(len(nestMaps))]
 		case "[][]intpred":
 			return keysOf(nestPreds)[r.Intn(len(nestPreds))]
+		case "[]float64map":
+			return keysOf(fltMaps)[r.Intn(len(fltMaps))]
+		case "[]float64pred":
+			return keysOf(fltPreds)[r.Intn(len(fltPreds))]
 		}
 		return ""
 	}
@@ -928,7 +980,7 @@ func genHistoryC12(r *common.Rng, seed int64, run int) *History {
 			op.Args = []string{self}
 			outLen, pooled = v.n, true
 		case "slice.Sort":
-			if v.typ != "[]int" && v.typ != "[]string" {
+			if v.typ != "[]int" && v.typ != "[]string" && v.typ != "[]float64" {
 				continue
 			}
 			op.Args = []string{self}
